@@ -65,6 +65,7 @@ type solveOpts struct {
 	timeoutS int
 	dir      string
 	par      int
+	noRetry  bool
 }
 
 func runSolver(ctx context.Context, sp solverSpec, file string, timeoutS int) (answer, out string) {
@@ -315,7 +316,7 @@ func SolveAll(obls []*Obligation, opts solveOpts) {
 			retry = append(retry, o)
 		}
 	}
-	if len(retry) == 0 || len(retry) > 12 {
+	if len(retry) == 0 || len(retry) > 12 || opts.noRetry {
 		return
 	}
 	ropts := opts
